@@ -202,9 +202,149 @@ theorem select_sub (feats : List Feat) (assoc : String → String → Rat) (thre
   rw [← hv]
   exact this
 
+/-! ## Returned in decreasing order of association -/
+
+theorem keyGe_total (a b : Option Rat) : keyGe a b = false → keyGe b a = true := by
+  cases a <;> cases b <;> simp [keyGe]
+  intro h; exact Rat.le_of_lt (Rat.not_le.1 h)
+
+theorem keyGe_trans (a b c : Option Rat) : keyGe a b = true → keyGe b c = true → keyGe a c = true := by
+  cases a <;> cases b <;> cases c <;> simp [keyGe]
+  intro h1 h2; exact Rat.le_trans h2 h1
+
+theorem insertDesc_sorted (x : Feat) : ∀ (l : List Feat), l.Pairwise (fun a b => keyGe a.2 b.2 = true) →
+    (insertDesc x l).Pairwise (fun a b => keyGe a.2 b.2 = true) := by
+  intro l
+  induction l with
+  | nil => intro _; simp [insertDesc]
+  | cons y t ih =>
+    intro h
+    rw [List.pairwise_cons] at h
+    unfold insertDesc
+    by_cases hyx : keyGe y.2 x.2 = true
+    · simp only [hyx, if_true]
+      rw [List.pairwise_cons]
+      refine ⟨?_, ih h.2⟩
+      intro z hz
+      rcases mem_insertDesc.1 hz with rfl | hz'
+      · exact hyx
+      · exact h.1 z hz'
+    · simp only [hyx, Bool.false_eq_true, if_false]
+      have hxy : keyGe x.2 y.2 = true := keyGe_total _ _ (by simpa using hyx)
+      rw [List.pairwise_cons]
+      refine ⟨?_, List.pairwise_cons.2 h⟩
+      intro z hz
+      rcases List.mem_cons.1 hz with rfl | hz'
+      · exact hxy
+      · exact keyGe_trans _ _ _ hxy (h.1 z hz')
+
+/-- the ranking is in decreasing order of the measure, undefined measures last -/
+theorem sortDesc_sorted (l : List Feat) : (sortDesc l).Pairwise (fun a b => keyGe a.2 b.2 = true) := by
+  induction l with
+  | nil => simp [sortDesc]
+  | cons x t ih => exact insertDesc_sorted x _ ih
+
+/-- the greedy filter keeps the order of the ranking -/
+theorem greedy_sublist (assoc : String → String → Rat) (thresh : Rat) :
+    ∀ (todo kept : List String), ∃ s, s.Sublist todo ∧ greedy assoc thresh todo kept = kept.reverse ++ s := by
+  intro todo
+  induction todo with
+  | nil => intro kept; exact ⟨[], List.Sublist.slnil, by simp [greedy]⟩
+  | cons f rest ih =>
+    intro kept
+    unfold greedy
+    split
+    · obtain ⟨s, hs, he⟩ := ih kept
+      exact ⟨s, List.Sublist.cons _ hs, he⟩
+    · obtain ⟨s, hs, he⟩ := ih (f :: kept)
+      refine ⟨f :: s, List.Sublist.cons_cons _ hs, ?_⟩
+      rw [he]; simp
+
+/-- **The returned features are in decreasing order of their association with the target**: the
+    result is the list of names of a sub-list of the ranking, which is sorted by the measure. -/
+theorem select_sorted (feats : List Feat) (assoc : String → String → Rat) (thresh : Rat) (nBest : Nat) :
+    ∃ l : List Feat, l.Sublist (sortDesc feats) ∧ l.map (·.1) = selectType feats assoc thresh nBest ∧
+      l.Pairwise (fun a b => keyGe a.2 b.2 = true) := by
+  unfold selectType
+  obtain ⟨s, hs, he⟩ := greedy_sublist assoc thresh (((sortDesc feats).filter (fun f => f.2.isSome)).map (·.1)) []
+  simp only [List.reverse_nil, List.nil_append] at he
+  have htake : (s.take nBest).Sublist (((sortDesc feats).filter (fun f => f.2.isSome)).map (·.1)) :=
+    (List.take_sublist _ _).trans hs
+  obtain ⟨l', hl', hm⟩ := List.sublist_map_iff.1 htake
+  refine ⟨l', hl'.trans List.filter_sublist, ?_, (sortDesc_sorted feats).sublist (hl'.trans List.filter_sublist)⟩
+  simp only [he]
+  exact hm.symm
+
+/-! ## The order in which the columns are listed does not matter (no ties) -/
+
+theorem insertDesc_perm (x : Feat) : ∀ (l : List Feat), (insertDesc x l).Perm (x :: l) := by
+  intro l
+  induction l with
+  | nil => simp [insertDesc]
+  | cons y t ih =>
+    unfold insertDesc
+    split
+    · exact ((ih).cons y).trans (List.Perm.swap x y t)
+    · exact List.Perm.refl _
+
+theorem sortDesc_perm (l : List Feat) : (sortDesc l).Perm l := by
+  induction l with
+  | nil => simp [sortDesc]
+  | cons x t ih => exact (insertDesc_perm x _).trans (ih.cons x)
+
+/-- no two features tie on the ranking measure (in particular at most one has an undefined one) -/
+def NoTies (l : List Feat) : Prop :=
+  ∀ a ∈ l, ∀ b ∈ l, a ≠ b → ¬ (keyGe a.2 b.2 = true ∧ keyGe b.2 a.2 = true)
+
+theorem sorted_perm_unique : ∀ (l1 l2 : List Feat), l1.Perm l2 → NoTies l1 →
+    l1.Pairwise (fun a b => keyGe a.2 b.2 = true) → l2.Pairwise (fun a b => keyGe a.2 b.2 = true) → l1 = l2 := by
+  intro l1
+  induction l1 with
+  | nil => intro l2 hp _ _ _; exact (List.Perm.nil_eq hp)
+  | cons a t1 ih =>
+    intro l2 hp hnt h1 h2
+    cases l2 with
+    | nil => exact absurd hp.length_eq (by simp)
+    | cons b t2 =>
+      have hab : a = b := by
+        by_cases e : a = b
+        · exact e
+        · exfalso
+          have ha2 : a ∈ b :: t2 := hp.mem_iff.1 List.mem_cons_self
+          have hb1 : b ∈ a :: t1 := hp.mem_iff.2 List.mem_cons_self
+          have ha2' : a ∈ t2 := by
+            rcases List.mem_cons.1 ha2 with h | h
+            · exact absurd h e
+            · exact h
+          have hb1' : b ∈ t1 := by
+            rcases List.mem_cons.1 hb1 with h | h
+            · exact absurd h.symm e
+            · exact h
+          rw [List.pairwise_cons] at h1 h2
+          exact hnt a List.mem_cons_self b hb1 e ⟨h1.1 b hb1', h2.1 a ha2'⟩
+      subst hab
+      have hp' : t1.Perm t2 := List.Perm.cons_inv hp
+      rw [List.pairwise_cons] at h1 h2
+      rw [ih t2 hp' (fun x hx y hy => hnt x (List.mem_cons_of_mem _ hx) y (List.mem_cons_of_mem _ hy)) h1.2 h2.2]
+
+/-- **The selection does not depend on the order in which the features (columns) are listed**,
+    as long as no two of them tie on the ranking measure. -/
+theorem select_perm_invariant (feats feats' : List Feat) (hp : feats.Perm feats') (hnt : NoTies feats)
+    (assoc : String → String → Rat) (thresh : Rat) (nBest : Nat) :
+    selectType feats assoc thresh nBest = selectType feats' assoc thresh nBest := by
+  have hs : sortDesc feats = sortDesc feats' := by
+    apply sorted_perm_unique _ _ (((sortDesc_perm feats).trans hp).trans (sortDesc_perm feats').symm) _
+      (sortDesc_sorted feats) (sortDesc_sorted feats')
+    intro a ha b hb
+    exact hnt a (mem_sortDesc.1 ha) b (mem_sortDesc.1 hb)
+  unfold selectType
+  rw [hs]
+
 /-! ## Non-vacuity -/
 private def assoc0 (a b : String) : Rat := if (a = "A" ∧ b = "B") ∨ (a = "B" ∧ b = "A") then 9/10 else 1/10
 example : selectType [("C", some 1), ("A", some 3), ("B", some 2), ("D", none)] assoc0 (1/2) 5 = ["A", "C"] := by
+  decide +kernel
+example : selectType [("D", none), ("B", some 2), ("C", some 1), ("A", some 3)] assoc0 (1/2) 5 = ["A", "C"] := by
   decide +kernel
 
 end C14
